@@ -23,6 +23,8 @@ def main(argv=None):
     case = unjson(body["case"])
     print(f"replaying {body['property']} {body.get('what', '')[:200]}")
     viol = mod.replay(case)
+    # (symptoms prefixed "harness:" are bookkeeping of the check - counted, never judged)
+    viol = [v for v in viol if not (isinstance(v, (list, tuple)) and v and isinstance(v[0], str) and v[0].startswith("harness:"))]
     for v in viol:
         print("REPRODUCED:", json.dumps(v, default=repr)[:2000])
     if not viol:
